@@ -785,8 +785,14 @@ pub(crate) fn apply(m: &mut Matrix<u64>, toks: &[&str]) -> Option<Result<(), Pan
             catch(|| m.insert_row(p, v))
         }
         "insert_row_with" => {
+            // the iterator parameter is generic: an owning vec iterator, a cloning slice
+            // iterator, and a lazily mapped range that could go on beyond the values needed
             let (p, vs) = (us(1), parse_vals(toks[2]));
-            catch(|| m.insert_row_with(p, vs.into_iter()))
+            match vs.len() % 3 {
+                0 => catch(|| m.insert_row_with(p, vs.into_iter())),
+                1 => catch(|| m.insert_row_with(p, vs.iter().cloned())),
+                _ => catch(|| m.insert_row_with(p, (0..vs.len()).map(|i| vs[i]))),
+            }
         }
         "insert_column" => {
             let (p, v) = (us(1), val(2));
@@ -794,7 +800,11 @@ pub(crate) fn apply(m: &mut Matrix<u64>, toks: &[&str]) -> Option<Result<(), Pan
         }
         "insert_column_with" => {
             let (p, vs) = (us(1), parse_vals(toks[2]));
-            catch(|| m.insert_column_with(p, vs.into_iter()))
+            match vs.len() % 3 {
+                0 => catch(|| m.insert_column_with(p, (0..vs.len()).map(|i| vs[i]))),
+                1 => catch(|| m.insert_column_with(p, vs.into_iter())),
+                _ => catch(|| m.insert_column_with(p, vs.iter().cloned())),
+            }
         }
         "remove_row" => {
             let p = us(1);
